@@ -112,8 +112,11 @@ class Builder:
             # (parameters as a dict only where the design gives this leaf parameter values: a call with dict parameters cannot itself be a
             #  generator parameter, which C19's unit cells are)
             haspv = any(i.get("pv") and i["of"].get("ref") == ref for m in self.D["mods"].values() for i in m["insts"])
-            em = h.ExternalModule(name=ref, port_list=[h.Port(name=p["n"], width=p["w"]) for p in ports],
+            em = h.ExternalModule(name=ref, port_list=[h.Port(name=p["n"], width=p["w"]) for p in ports if not p.get("late")],
                                   desc="leaf", domain="verif", **({"paramtype": dict} if haspv else {}))
+            for p in ports:
+                if p.get("late"):
+                    em.port_list.append(h.Port(name=p["n"], width=p["w"]))      # a port added to the device after it was made
             call = em()
             self.exts[ref] = em
         self.leaves[ref] = call
@@ -151,7 +154,7 @@ class Builder:
                 ncs[t["id"]] = h.NoConn(name=t["name"] or None)
             return ncs[t["id"]]
         if k == "fsig":
-            return self.foreign_signal(t)
+            return self.foreign_signal(t, M)
         if k == "bund":
             return M[t["n"]]
         if k == "bref":
@@ -166,9 +169,16 @@ class Builder:
             return h.AnonymousBundle(**mem)
         raise ValueError(k)
 
-    def foreign_signal(self, t):
+    def foreign_signal(self, t, M=None):
         """A signal owned by nobody ("orphan") or by another module (named by t["owner"])."""
         h = self.h
+        if t["owner"] == "copyof":
+            # a copy of a signal this module owns, itself never added to any module
+            import copy
+            key = ("copyof", t["n"], id(M))
+            if key not in self.foreign:
+                self.foreign[key] = copy.copy(M[t["n"]])
+            return self.foreign[key]
         key = (t["owner"], t["n"])
         if t["owner"].startswith("design:"):
             # a signal of another module of this very design
